@@ -19,7 +19,7 @@ TRUSTED = [
 def classify(chk, s, r, an, findings):
     """map one C13 anomaly to ('ok' | 'known' | 'violation', text)"""
     kind = an[0] if isinstance(an, tuple) else an
-    if kind == "AActiveOver" and oracle_only(s):
+    if kind in ("AActiveOver", "AQueuedWhileFree") and oracle_only(s):
         return "ok", "not judged: the clause is validated on the model's run, which does not carry this scenario"
     if kind == "ASilentLoss" and oracle_only(s):
         j, opi = an[1], an[2]
@@ -68,6 +68,14 @@ def classify(chk, s, r, an, findings):
         return "violation", (f"settled point at op #{opi}: {an[2]} worker(s) counted as working but only {an[3]} really running a job: "
                              "an accepted job waits at a live worker that runs nothing (e.g. the replacement of a dead worker was "
                              "not given its predecessor's queue)")
+    if kind == "AQueuedWhileFree":
+        opi = an[1]
+        if any(isinstance(m, tuple) and m[0] == "AQueuedWhileFree" and m[1] == opi for m in r["m13"]):
+            return "ok", ("the model's own run has the same settled point (sticky routing: the queued job's key is being "
+                          "processed elsewhere; or F3 damage)")
+        return "violation", (f"settled point at op #{opi}: {an[2]} accepted job(s) wait in the factory queue while {an[3]} worker(s) "
+                             "are idle, alive and not draining, and nothing is pending that would hand them a job: these jobs "
+                             "have no fate (e.g. a replacement worker that was never announced to the router as available)")
     return "violation", f"{show_term(an)}"
 
 
@@ -99,6 +107,8 @@ def run(chk):
         scns += [gen_long_scenario(chk.rng) for _ in range(n // 5)]
         scns += [gen_stuck_scenario(chk.rng) for _ in range(n // 8)]
         scns += [gen_empty_pool_scenario(chk.rng) for _ in range(n // 8)]
+        scns += [gen_shrink_window_scenario(chk.rng) for _ in range(n // 6)]
+        scns += [gen_backlog_scenario(chk.rng) for _ in range(n // 6)]
     res, htbl = evaluate("C13", build, scns)
 
     distinct = set()
@@ -137,7 +147,9 @@ def run(chk):
                             "shutdown) + corpus/C13, corpus/C14; per op the sorted event view {accept/return, start/end with worker and "
                             "incarnation, discard with reason, drop, send error, queue depth / active workers / capacity} of the real "
                             "Factory is compared with the model's; check_C13 (one start, one fate, return only with discard, no silent "
-                            "loss) is evaluated in Coq on the implementation's log. non-trivial = >= 2 jobs started and a death / "
+                            "loss; at settled points: no worker counted as working that runs nothing, no job in the factory queue next to "
+                            "a free worker -- these two where the model's own run is free of them) is evaluated in Coq on the "
+                            "implementation's log. non-trivial = >= 2 jobs started and a death / "
                             "resize / hold / ttl / stop op; distinct = distinct scenario lines")
     return chk.finish(trusted_base=TRUSTED,
                       explanation="Known deviations of the unchanged code are reported as KNOWN-FINDING only when the drop matches the "
